@@ -9,18 +9,22 @@ PROP = 'C14'
 CHECK_MODS = ['Model.Trigger', 'Checks.C14chk']
 CASE_TYPE = 'C14_case'
 CORR, PROPCHK = 'C14_corr', 'C14_prop'
+PRE = 'C14_pre'
 THEOREMS = ['C14_columns_and_values_aligned', 'C14_every_versioned_column_written', 'C14_excluded_array_exact',
             'C14_nothing_without_transaction', 'C14_nothing_for_noop_update', 'C14_partial_first_insert',
-            'C14_partial_first_update', 'C14_partial_first_delete', 'C14_example']
+            'C14_partial_first_update', 'C14_partial_first_delete', 'C14_trigger_program_equals_object_path',
+            'C14_one_event', 'C14_hypotheses_decidable', 'C14_full_example', 'C14_example']
 RULE = ('(P) random model configurations (1-6 columns, 1-2 key columns, excluded subsets, validity on/off, tracker on/off, '
         'custom column / table names, schema) are built on the real code; the text of CreateTriggerFunctionSQL.for_manager is '
         'parsed by a fail-closed parser into the trigger AST and compared structurally with the model generator; the PARSED '
-        'program is then executed (texec) on random row-event sequences grouped into transactions (at most one event per row '
+        'program is then executed (texec) on random row-event sequences grouped into transactions (several events per row '
         'and transaction; events without an active transaction; updates touching only excluded columns) and compared with the '
-        'object path. (S) sync_trigger is run through a stub session on SQLite-created tables and the excluded ARRAY it emits '
+        'object path; the generated SQL statements are also EXECUTED by SQLite on the real version table for the same events '
+        '(CTE upsert run as UPDATE-then-INSERT, NEW/OLD as bind parameters) and the resulting table compared with texec. (S) sync_trigger is run through a stub session on SQLite-created tables and the excluded ARRAY it emits '
         'is compared with the configured excluded set. Non-trivial: >= 3 columns, an excluded column, >= 3 events on >= 2 rows.')
-ASSUMPTIONS = ['PARTIAL: PostgreSQL is not available; texec is a hand-written semantics of the generated statement forms',
-               'several events on one row within one transaction are excluded from the strict check (open findings, Refuted/C14_refuted.v)']
+ASSUMPTIONS = ['PARTIAL: PostgreSQL is not available; texec is a hand-written semantics of the generated statement forms, validated on '
+               'every run against SQLite executing the generated statements (differences between SQLite and PostgreSQL on these '
+               'statement forms, and the PL/pgSQL control flow / hstore guard, remain trusted)']
 
 
 def budget(tier):
@@ -46,11 +50,9 @@ def gen_events(rng, cfg):
         tx += 1
         active = rng.random() < 0.85
         touched = set()
-        for _ in range(rng.randint(1, 3)):
+        for _ in range(rng.randint(1, 4)):
             key = tuple(rng.randint(1, 2) for c in cfg['cols'] if c['pk'])
-            if key in touched:
-                continue
-            touched.add(key)
+            touched.add(key)           # several events on one row within one transaction are allowed
             if key not in rows:
                 new = {c['name']: (key[i] if c['pk'] else rng.choice([None, 0, 1, 2]))
                        for i, c in enumerate(cfg['cols'])}
@@ -102,15 +104,6 @@ def corpus():
                                                         dict(tx=5, kind='del', old={'k0': 7, 'c0': 2})])]
 
 
-def classify(case, obs):
-    # several events on one row within one transaction: the two recorded open findings
-    if case.get('repeated') == 'validity' and case['cfg']['validity']:
-        return 'F-C14-validity-self-close'
-    if case.get('repeated') == 'delete':
-        return 'F-C14-delete-arm'
-    return None
-
-
 def make_build(cfg):
     import sqlalchemy as sa
 
@@ -137,6 +130,60 @@ class StubSession(object):
         self.sql.append(str(stmt))
 
 
+def to_sqlite(fragment):
+    """the generated statement with the trigger's row variables turned into bind parameters"""
+    import re
+    fragment = re.sub(r'NEW\."(\w+)"', r':new_\1', fragment)
+    fragment = re.sub(r'OLD\."(\w+)"', r':old_\1', fragment)
+    fragment = fragment.replace('transaction_id_value', ':txid')
+    return fragment.replace('IS DISTINCT FROM', 'IS NOT')
+
+
+def sqlite_execute(env, cfg, text, prog, evs):
+    """A second semantics of the generated trigger program: its SQL statements are EXECUTED by SQLite on the real
+    version table (the data-modifying CTE is run as UPDATE, then INSERT when no row was hit; NEW/OLD/transaction id
+    become bind parameters; IS DISTINCT FROM -> IS NOT).  The PL/pgSQL control flow around them (no active
+    transaction -> return; hstore no-op guard; TG_OP dispatch) is interpreted here from the parsed program."""
+    import re
+    import sqlalchemy as sa
+    arms = pgparse.raw_arms(text)
+    conn = env.connection
+    vcls = env.version_class(env.target)
+    vt = vcls.__table__
+    conn.execute(vt.delete())
+    names = [c['name'] for c in cfg['cols']]
+
+    def run(sql, old, new, txid):
+        sql = to_sqlite(sql)
+        params = {'txid': txid}
+        for n in names:
+            params['old_' + n] = (old or {}).get(n)
+            params['new_' + n] = (new or {}).get(n)
+        wanted = set(re.findall(r':(\w+)', sql))
+        return conn.execute(sa.text(sql), {k: params.get(k) for k in wanted})
+    for e in evs:
+        if e['tx'] is None:
+            continue
+        old, new = e.get('old'), e.get('new')
+        if e['kind'] == 'upd':
+            if all(old[n] == new[n] for n in names if n not in prog['excluded']):
+                continue
+        arm = arms[{'ins': 'ins', 'upd': 'upd', 'del': 'delete'}[e['kind']]]
+        for v in arm['validity']:
+            run(v, old, new, e['tx'])
+        if run(arm['update'], old, new, e['tx']).rowcount == 0:
+            run(arm['insert'], old, new, e['tx'])
+    txc, endc, opc = cfg['names']
+    out = []
+    for row in conn.execute(sa.select(vt)).mappings():
+        dat = [[c['name'], row[c['name']]] for c in cfg['cols'] if c['name'] in vt.c]
+        mod = [[c['name'], bool(row[c['name'] + '_mod'])] for c in cfg['cols'] if (c['name'] + '_mod') in vt.c]
+        out.append(dict(tx=row[txc], end=row[endc] if endc in vt.c else None, op=row[opc], dat=dat, mod=mod))
+    conn.execute(vt.delete())
+    conn.commit()
+    return out
+
+
 def _observe(case):
     cfg = case['cfg']
     from sqlalchemy_continuum.plugins import PropertyModTrackerPlugin
@@ -155,7 +202,8 @@ def _observe(case):
                 expect = dict(proc='m_audit', vt=vt, txc=cfg['names'][0], endc=cfg['names'][1], opc=cfg['names'][2])
                 try:
                     prog = pgparse.parse_function(text, expect)
-                    return dict(prog=prog, parse_error=None, exc=None)
+                    executed = sqlite_execute(env, cfg, text, prog, case['evs'])
+                    return dict(prog=prog, parse_error=None, exc=None, executed=executed)
                 except pgparse.ParseError as e:
                     return dict(prog=None, parse_error=str(e)[:300], text=text[:3000], exc=None)
             else:
@@ -208,8 +256,8 @@ def encode(case, obs):
 
     def gups(u):
         def gu(x):
-            return {'op1': lambda: 'UOp1', 'set': lambda: '(USet %s %s)' % (cn(x[1]), x[2]),
-                    'modor': lambda: '(UModOr %s)' % cn(x[1])}[x[0]]()
+            return {'op1': lambda: 'UOp1', 'op2': lambda: 'UOp2', 'set': lambda: '(USet %s %s)' % (cn(x[1]), x[2]),
+                    'modor': lambda: '(UModOr %s)' % cn(x[1]), 'modtrue': lambda: '(UModTrue %s)' % cn(x[1])}[x[0]]()
 
         def gc(x):
             return '(%s %s)' % ('CCol' if x[0] == 'col' else 'CMod', cn(x[1]))
@@ -241,7 +289,14 @@ def encode(case, obs):
         else:
             ev = '(TDel %s)' % grow(e['old'])
         return gpair(gopt(e['tx']), ev)
-    return '(C14_P %s %s %s)' % (g, prog, glist(case['evs'], gev))
+    ex = obs.get('executed')
+    if ex is None:
+        executed = 'None'
+    else:
+        executed = '(Some %s)' % glist(ex, lambda r: '(mktr %s %s %s %s %s)' % (
+            gZ(r['tx']), gopt(r['end']), gZ(r['op']), glist(r['dat'], lambda kv: gpair(cn(kv[0]), gopt(kv[1]))),
+            glist(r['mod'], lambda kv: gpair(cn(kv[0]), gbool(kv[1])))))
+    return '(C14_P %s %s %s %s)' % (g, prog, glist(case['evs'], gev), executed)
 
 
 def nontrivial(case, obs):
